@@ -167,11 +167,12 @@ type pathCtx struct {
 	concolic       map[string]uint64 // test mode: decisions follow this assignment
 
 	// goroutine model (DESIGN 3.5)
-	goSeq      int // goroutines created so far
-	gor        int // id (1-based) of the goroutine body being run, 0 = main
-	locked     int // depth of Once/Mutex protected regions
-	access     map[int]*accessSet
-	schedOrder []int // completion order chosen so far (0-based creation index)
+	goSeq       int // goroutines created so far
+	gor         int // id (1-based) of the goroutine body being run, 0 = main
+	locked      int // depth of Once/Mutex protected regions
+	access      map[int]*accessSet
+	schedOrder  []int // completion order chosen so far (0-based creation index)
+	modelSplits int
 }
 
 type accessSet struct {
